@@ -50,6 +50,10 @@ var hostileTemplates = []string{
 	"while 1 { }", "while 1 { x = 1 }", "i=0; while i<{n} { i=i+1 }", "i=0; while i<{n} { i=i+1; j=0; while j<{n} { j=j+1 } }",
 	"{nestif}", "{nesttmpl}", "{nestparen}", "{nestarr}", "{longsum}", "{longlist}", "{nestfunc}", "{nestwhile}", "{nesthole}",
 	"^st力量{v}", "^st力量+{v}", "^st&手枪={v}", "^st力量*{v}:{v}", "^st'力量 2':{v}", "^sta:b:{v}", "^st力量{v}敏捷{v}",
+	// st values are compiled under other switches (no side-less dice, no bitwise operators, no statements): texts that read
+	// differently under the two settings, inside constructs whose look-ahead and parse must agree
+	"^sta=x?2d:3", "^sta={v} ? 2d : 3", "^sta=1?2d:3 b=2", "^sta={v}?3d,1?4d", "^sta=[2d,3] b=1", "^sta=f(2d) b=1", "^sta=(x?2d:3)", "^sta=x?1&2:3", "^sta=x?1|b:3",
+	"^sta={v}?d:2", "^st&a=x?2d:3", "^sta+=x?2d:3", "^sta*2:x?2d:3", "^sta=`{x?2d:3}`", "^sta=x?2d:3d", "^sta=2d?1:2", "^sta=[1,2][0:1d]", "^sta=x ?? 2d : 3", "^sta=x?2d6kh:3",
 	"// #EnableDice wod true\n{v}a{v}", "// #EnableDice coc false\nb{v}", "// comment\n{v}",
 	"return {v}", "break", "continue", "if {v} { {v} } else { {v} }", "if {v} {  }", "func {v}() {}", "else", "if", "func", "while",
 }
